@@ -148,6 +148,15 @@ CATALOG = [
     ("benign-H_r9", "benign", "H_r9.diff", [("R-SLOT", None), ("R-LOCKSET", None), ("R-WORKERPURE", None)]),
     ("benign-H_r10", "benign", "H_r10.diff", [("R-PARAMFLOW", None)]),
     ("benign-H_r11", "benign", "H_r11.diff", [("R-CV", None), ("R-JOIN", None), ("R-LOCKSET", None)]),
+    ("benign-B_r6", "benign", "B_r6.diff", [("R-CMPEND", None), ("R-CMPSIGN", None)]),
+    ("benign-I_r6", "benign", "I_r6.diff", [("R-BISECT", None)]),
+    ("benign-I_r7", "benign", "I_r7.diff", [("R-BSEARCH", None)]),
+    ("benign-J_r5", "benign", "J_r5.diff", [("R-REFCOUNT", None)]),
+    ("benign-J_r1", "benign", "J_r1.diff", [("R-INITEXTENT", None)]),
+    ("benign-K_r1", "benign", "K_r1.diff", [("R-CHUNKINIT", None)]),
+    ("benign-L_r4", "benign", "L_r4.diff", [("R-BACKPTR", None)]),
+    ("benign-L_r9", "benign", "L_r9.diff", [("R-RPWIDTH", None)]),
+    ("benign-L_r10", "benign", "L_r10.diff", [("R-TAGS", None), ("R-RPWIDTH", None)]),
     # one-place substitutions for rules nothing above exercises: (file, old, new)
     ("sub-mirror-width", "subst", ("StringDictionaryPFC.cpp", "dict->buckets = loadValue<uint32_t>(in);", "dict->buckets = loadValue<uint64_t>(in);"),
      [("R-MIRROR", "StringDictionaryPFC::save")]),
